@@ -634,6 +634,43 @@ fn c04(case: &Case, ctx: &Ctx, rpt: &mut Report) {
                         }
                     }
                 }
+                // Every participating capture of a sub-expression without tree wildcards is text
+                // that this sub-expression matches on its own, under the flags in force (they are
+                // recorded on its literals) — judged by the reference model on the captured text
+                // alone, and therefore also for paths that the model places outside the
+                // documented language as a whole (round 9, C04-J: leaving those to C01 hid a
+                // class in a branch that had become case-insensitive).
+                for (tok, cap) in captoks.iter().zip(caps.iter()) {
+                    if let Some((cs, ce)) = cap {
+                        fn contains_tree(t: &Tok) -> bool {
+                            match &t.node {
+                                Node::Tree { .. } => true,
+                                Node::Alt(bs) => bs.iter().any(|b| b.toks.iter().any(contains_tree)),
+                                Node::Rep { body, .. } => body.toks.iter().any(contains_tree),
+                                _ => false,
+                            }
+                        }
+                        if contains_tree(tok) {
+                            continue;
+                        }
+                        let text = &pc[*cs..*ce];
+                        let info = &model.asts[0].1;
+                        let mut m = Matcher::new(text, Mode::May, Quirks::default(), info);
+                        if let Ok(ends) = m.tok_ends(tok, 0) {
+                            rpt.evaluations += 1;
+                            rpt.bucket("capture-checked-against-its-own-sub-expression");
+                            if !ends.contains(&text.len()) {
+                                rpt.disagreement(
+                                    &ctx.known,
+                                    "capture-is-not-matched-by-its-own-sub-expression",
+                                    None,
+                                    json!({"expr": clip(case.expr), "path": clip(p), "capture": text.iter().collect::<String>(), "sub_expression": case.expr.get(tok.span.0..tok.span.0 + tok.span.1)}),
+                                );
+                                break;
+                            }
+                        }
+                    }
+                }
                 let rooted_quirk = Quirks {
                     rooted_leading_tree_is_dotstar: true,
                     rep_edge_tree_any_form: false,
